@@ -1,6 +1,8 @@
 package main
 
 import (
+	"runtime/debug"
+	"runtime/pprof"
 	"encoding/json"
 	"flag"
 	"fmt"
@@ -14,6 +16,9 @@ import (
 )
 
 func main() {
+	if os.Getenv("GOGC") == "" {
+		debug.SetGCPercent(1000)
+	}
 	if len(os.Args) < 2 {
 		fmt.Fprintln(os.Stderr, "usage: gosym run|check ...")
 		os.Exit(2)
@@ -42,7 +47,23 @@ func cmdRun(args []string) {
 	solverMs := fs.Int("solver-ms", 10000, "per-query solver timeout")
 	order := fs.String("order-sites", "", "comma-separated functions whose map iteration order is a decision")
 	verbose := fs.Bool("v", false, "verbose")
+	cpuprof := fs.String("cpuprofile", "", "write cpu profile")
 	fs.Parse(args)
+	if *cpuprof != "" {
+		f, _ := os.Create(*cpuprof)
+		pprof.StartCPUProfile(f)
+		defer pprof.StopCPUProfile()
+		runtime.SetMutexProfileFraction(5)
+		runtime.SetBlockProfileRate(100000)
+		defer func() {
+			mf, _ := os.Create(*cpuprof + ".mutex")
+			pprof.Lookup("mutex").WriteTo(mf, 0)
+			mf.Close()
+			bf, _ := os.Create(*cpuprof + ".block")
+			pprof.Lookup("block").WriteTo(bf, 0)
+			bf.Close()
+		}()
+	}
 	t0 := time.Now()
 	p, err := gosym.Load(gosym.LoadOptions{Repo: *repo, HarnessDir: *hdir})
 	if err != nil {
